@@ -44,6 +44,7 @@ Theorem C02_check_chunk_sound : forall c, check_chunk c = [] ->
   sum (map p_nvalues (data_pages c)) = nat_of_field 5 (c_meta c) /\
   sumN (map (fun p => p_hlen p + p_comp p)%nat (c_pages c)) = n_of_field 7 (c_meta c) /\
   sumN (map (fun p => p_hlen p + p_uncomp p)%nat (c_pages c)) = n_of_field 6 (c_meta c) /\
+  forallb (fun p => (p_ulen p =? p_uncomp p)%nat) (c_pages c) = true /\
   forallb p_crc_ok (c_pages c) = true.
 Proof.
   intros c H. unfold check_chunk in H.
